@@ -217,7 +217,9 @@ def run (lines : Array String) : IO Report := do
           let m := (if r == .stored then "STORED" else "ERR") ++ " pos=" ++ fmtPos bkt pos
           if m ≠ obs then diffIf st.groups.isEmpty rep ln "model" s!"case={cid} set: model={m} impl={obs}"
           -- C10 decision oracle: the on-disk size is the plain padded size, or smaller only when compression was allowed
-          if pos.isSome then
+          -- (judged on what the IMPLEMENTATION wrote: in mix collide the bucket model is not in step with the store, so
+          --  whether the model would have written is no evidence that a record exists)
+          if pos.isSome && !(obs.endsWith "pos=-") then
             let plain := plainSize k.length body.length
             let mayCompress : Bool := decide (plain > 256) && (flag.toNat! &&& 0x10) == 0 && (flag.toNat! &&& 0x10000) == 0
             if !(size == plain || (mayCompress && decide (size < plain) && size % 256 == 0 && decide (size > 0))) then
